@@ -78,6 +78,7 @@ class _NoSleep:
 
 class Check(CheckBase):
     property_id = 'C12'
+    evaluations_counter = 'plans'
     level = 'fault_enumeration'
     rule = ('fault plans = backend in {Local, S3Compatible, S3, B2} x operation in {upload, upload_stream, download, download_stream, '
             'exists, delete, list_files} x fault kind x position x consecutive count in {1,2,3 (inside every retry budget), forever}. '
